@@ -68,9 +68,10 @@ def astep (a : ASt) : Op → ASt
 
 def arun (a : ASt) (ops : List Op) : ASt := ops.foldl astep a
 
-/-- an operation of the node-list editing API -/
+/-- an operation outside the plain emitter-call interface: the node-list editing API, and the Compiler's global constant pool
+    (`_new_const`), which an Assembler does not have (there the pool is embedded by one final embed_const_pool call) -/
 def isEdit : Op → Bool
-  | .cursor _ | .remove _ | .removerange _ _ | .addnode _ | .addafter _ _ | .addbefore _ _ => true
+  | .cursor _ | .remove _ | .removerange _ _ | .addnode _ | .addafter _ _ | .addbefore _ _ | .gconst _ _ => true
   | _ => false
 
 /-- section current after a call sequence -/
